@@ -23,7 +23,7 @@ Abstract values (JSON-able through lib.jsonable, and directly convertible to Coq
 Hand types: HIP [hit, alg, key, [[name]...]]; IPSECKEY [prec, gwtype, alg, gw, key] with gw None |
     4 octets | 16 octets | name; AMTRELAY [prec, D, type, relay]; APL [[[family, neg, addr, prefix]...]];
     GPOS [lat, lon, alt] (ASCII); LOC [[d,m,s,ms,sign],[d,m,s,ms,sign], alt_cm, size_cm, hp_cm, vp_cm];
-    OPT [[otype, payload]...]; SVCB/HTTPS [priority, target, [[key, value octets]...]].
+    OPT [[[otype, payload]...]]; SVCB/HTTPS [priority, target, [[key, value octets]...]].
 """
 import importlib
 import os
@@ -550,7 +550,7 @@ def g_opt(rng, names, origin, profile):
     for _ in range(n):
         ot = rng.choice([3, 10, 8, 8, 15, 15, 18, 22, 23, 24, 25, 65001, 4, 11, 12, 65535, 0, 9, 13, rng.randrange(26, 65536)])
         out.append([ot, g_opt_payload(rng, ot)])
-    return out
+    return [out]
 
 
 def _name_from_wire_plain(b):
@@ -565,7 +565,7 @@ def _name_from_wire_plain(b):
 
 def m_opt(cls, rdclass, rdtype, v):
     opts = []
-    for ot, data in v:
+    for ot, data in v[0]:
         data = bytes(data)
         if ot == 3:
             opts.append(dns.edns.NSIDOption(data))
@@ -595,7 +595,7 @@ def m_opt(cls, rdclass, rdtype, v):
 
 
 def v_opt(rd):
-    return [[int(o.otype), o.to_wire()] for o in rd.options]
+    return [[[int(o.otype), o.to_wire()] for o in rd.options]]
 
 
 def g_svcb(rng, names, origin, profile):
@@ -934,12 +934,13 @@ def _c_opt():
                 addr[-1] &= (0xFF << (8 - src % 8)) & 0xFF
             for scope in (0, 8 * full):
                 ecs.append([[8, bytes([0, fam, src, scope]) + bytes(addr)]])
-    return [[], [[3, b""]], [[3, b"nsid\xff"]], [[10, cookie8]], [[10, cookie8 + cookie40[:8]]], [[10, cookie8 + cookie40[:32]]],
+    out = [[], [[3, b""]], [[3, b"nsid\xff"]], [[10, cookie8]], [[10, cookie8 + cookie40[:8]]], [[10, cookie8 + cookie40[:32]]],
             [[65001, b""], [65001, b"\x00"], [0, b"\xff" * 300]], [[65535, b"x"], [4, b"abc"], [3, b"z"]], [[12, bytes(468)]], [[11, b"\x00\x10"]],
             [[15, b"\x00\x00"]], [[15, b"\xff\xffsigned by \xc3\xa9"]], [[15, b"\x00\x12x"]],
             [[18, b"\x05agent\x07example\x00"]], [[18, b"\x00"]],
             [[22, b"en-US"]], [[22, b""]], [[23, b"mailto:x@example"]], [[24, b"Org \xe4\xb8\xad"]], [[25, b"db"]],
             [[8, b"\x00\x01\x18\x00\xc0\x00\x02"], [15, b"\x00\x04t"], [10, cookie8]]] + ecs
+    return [[o] for o in out]
 
 
 def _c_svcb():
